@@ -91,6 +91,16 @@ CLAIMS = {
         "Exploration: 12 base models x 45 (quick) / 1500 (thorough) generated (program, request) pairs, each program compiled once; I, <F>, <F^2>, R_eff, V, ratio at 1e-10; one defect repaired (inline C bodies).",
         "Base model correctness is C01's subject; identifiers from a safe alphabet; translated values kept positive except in the constructed invalid-region class.",
         "DESIGN.md section 3 C16"),
+    "C17": (
+        "generated edit/load/evaluate histories (Hypothesis) over a plugin with an included C file and a scratch copy of the package whose kernel_header.c may be edited; oracle = analytic value from the current constants and table + history invariant 'library path -> (sha256 of generated source, bits) is a function', in a long-running driver process and in fresh processes sharing one cache",
+        "Exploration: 128 (quick) / ~1.9k (thorough) histories of up to 13 steps incl. reverts, parameter-table edits, template edits and precision switches; every edit advances mtime by whole seconds of a logical clock.",
+        "mtime advance is the property's stated precondition; PYTHONDONTWRITEBYTECODE=1; the package copy lives in scratch and is restored after every history.",
+        "DESIGN.md section 3 C17"),
+    "C18": (
+        "harness-owned schedules: scripted compiler injected through CC reproduces the real linker's in-place write in two halves with block points, worker processes block at start and before dlopen; exhaustive enumeration of two-worker interleavings, Hypothesis-generated n-worker schedules with SIGKILL at every block point followed by a fresh worker, plus free-running races; oracle = every surviving worker exits 0 with the analytic numbers, all loaded libraries have the complete size, final cache name absent or complete",
+        "Exploration / fault enumeration: 64 of the 252 two-worker orders + 12 kill schedules + generated schedules (quick), all 252 orders + kills + ~900 generated schedules with up to 16 workers (thorough); one defect repaired (in-place compile to the final name).",
+        "Only interleavings expressible through the block points and SIGKILL crash points are decided; free-run cases depend on real timing and can only add true failures; a 60 s stall is inconclusive.",
+        "DESIGN.md section 3 C18"),
     "C19": (
         "Hypothesis-generated spin-echo grids / wavelengths / acceptances with Gaussians placed inside the transform's own q range; oracle = analytic Hankel pair, adaptive quadrature for the acceptance-limited J0 term, linearity and grid predicates, Gxi end-to-end scale/background relation",
         "Exploration: ~640 (quick) / ~6.4k (thorough) generated transforms incl. single-point sets, per-point wavelengths and restricted acceptance; one defect repaired (acceptance units).",
